@@ -14,6 +14,9 @@ CONSTANTS Active,        \* fields that receive operations
           SliceLens,     \* lengths written to StorageBytes / StorageString
           VecArgs        \* arguments of store_vec (decimal digits, least significant first)
 
+\* a mutant of offset_calculator for the binding demonstration (cfg: OffCalc <- OffCalcNoPad)
+OffCalcNoPad(ty, index) == (index * SizeB(ty)) \div 8
+
 Op(f, op, a, b, c) == [f |-> f, op |-> op, a |-> a, b |-> b, c |-> c]
 Idx == 0..MaxLen
 
